@@ -35,7 +35,7 @@ row(props=["C10"], func=BS + "checkDataClass", params=["only", "node", "out"], k
     when='only && node.Type == "Class" && len(node.Functions) > 0',
     fields={"File": "node.FilePath", "Size": "len(node.Functions)"},
     what="dataClass ⇔ class that has methods and only getters/setters")
-row(props=["C10"], func=BS + "AnalysisBadSmell", params=["nodes"], kind="callarg", callee=BS + "checkDataClass", arg=0, each={"coll": "nodes", "as": "node"},
+row(props=["C10", "C07"], func=BS + "AnalysisBadSmell", params=["nodes"], kind="callarg", callee=BS + "checkDataClass", arg=0, each={"coll": "nodes", "as": "node"},
     expr="forall(node.Functions, m, %s)" % (GETSET % ("m", "m")), what="dataClass flag = every method is a getter/setter")
 row(props=["C10"], func=BS + "AnalysisBadSmell", params=["nodes"], kind="callguard", callee=BS + "checkDataClass", each={"coll": "nodes", "as": "node"}, expr="true",
     what="dataClass is checked for every node")
